@@ -83,6 +83,17 @@ class UpdateHandler(MessageHandler):
 
         log.debug(lazymsg('update.received number={number}', number=self._number), ctx.peer_id)
 
+        # Process withdraws first: RFC 4271 section 4.3, a prefix that is both in WITHDRAWN ROUTES and in
+        # NLRI of the same UPDATE is handled as if it were not withdrawn (the announcement stays)
+        for nlri in parsed.withdraws:
+            ctx.neighbor.rib.incoming.update_cache_withdraw(nlri)
+            self._audit_withdraw(ctx, nlri)
+            ctx.stats['receive-withdraws'] += 1
+            log.debug(
+                lazyformat('update.nlri number=%d nlri=' % self._number, nlri, str),
+                ctx.peer_id,
+            )
+
         # Process announces - create Route objects for cache
         # parsed.announces contains RoutedNLRI objects; extract the bare NLRI for RIB
         for routed in parsed.announces:
@@ -91,16 +102,6 @@ class UpdateHandler(MessageHandler):
             ctx.neighbor.rib.incoming.update_cache(route)
             self._audit_announce(ctx, nlri)
             ctx.stats['receive-prefixes'] += 1
-            log.debug(
-                lazyformat('update.nlri number=%d nlri=' % self._number, nlri, str),
-                ctx.peer_id,
-            )
-
-        # Process withdraws - use dedicated method
-        for nlri in parsed.withdraws:
-            ctx.neighbor.rib.incoming.update_cache_withdraw(nlri)
-            self._audit_withdraw(ctx, nlri)
-            ctx.stats['receive-withdraws'] += 1
             log.debug(
                 lazyformat('update.nlri number=%d nlri=' % self._number, nlri, str),
                 ctx.peer_id,
@@ -124,6 +125,17 @@ class UpdateHandler(MessageHandler):
 
         log.debug(lazymsg('update.received number={number}', number=self._number), ctx.peer_id)
 
+        # Process withdraws first: RFC 4271 section 4.3, a prefix that is both in WITHDRAWN ROUTES and in
+        # NLRI of the same UPDATE is handled as if it were not withdrawn (the announcement stays)
+        for nlri in parsed.withdraws:
+            ctx.neighbor.rib.incoming.update_cache_withdraw(nlri)
+            self._audit_withdraw(ctx, nlri)
+            ctx.stats['receive-withdraws'] += 1
+            log.debug(
+                lazyformat('update.nlri number=%d nlri=' % self._number, nlri, str),
+                ctx.peer_id,
+            )
+
         # Process announces - create Route objects for cache
         # parsed.announces contains RoutedNLRI objects; extract the bare NLRI for RIB
         for routed in parsed.announces:
@@ -132,16 +144,6 @@ class UpdateHandler(MessageHandler):
             ctx.neighbor.rib.incoming.update_cache(route)
             self._audit_announce(ctx, nlri)
             ctx.stats['receive-prefixes'] += 1
-            log.debug(
-                lazyformat('update.nlri number=%d nlri=' % self._number, nlri, str),
-                ctx.peer_id,
-            )
-
-        # Process withdraws - use dedicated method
-        for nlri in parsed.withdraws:
-            ctx.neighbor.rib.incoming.update_cache_withdraw(nlri)
-            self._audit_withdraw(ctx, nlri)
-            ctx.stats['receive-withdraws'] += 1
             log.debug(
                 lazyformat('update.nlri number=%d nlri=' % self._number, nlri, str),
                 ctx.peer_id,
